@@ -72,12 +72,14 @@ KIND_CLASS = {'mod_pch': 'pch-header-modified', 'del_header': 'header-gone', 're
               'move_header': 'header-gone', 'mod_header': 'header-modified',
               'add_header': 'header-added', 'uninclude': 'include-removed',
               'rm_header': 'unused-header-deleted',
-              'unbreak_tu': 'header-gone-after-failed-build'}
+              'unbreak_tu': 'header-gone-after-failed-build',
+              'fix_header': 'header-repaired-after-failed-build'}
 
 
 def floors(tier):
     q = tier == 'quick'
     return {'builds:after-edit': 50 if q else 900, 'builds:expected-to-fail': 8 if q else 100,
+            'builds:expected-to-fail:header': 12,
             'builds:noop': 8 if q else 120,
             'builds:clean+rebuild': 8 if q else 120,
             'obligations:must-recompile': 200 if q else 3000,
@@ -550,6 +552,20 @@ def cases(tier, seed):
             yield {'index': 1000 + k, 'backend': backend, 'compiler': 'gcc', 'jobs': 1,
                    'directed': 'header-beside-source-of-the-same-name', 'state': st,
                    'history': hist}
+    # directed: a header saved with a mistake in it (the build fails, the compiler leaves the
+    # old objects alone), then repaired with new contents - plainly named files throughout
+    for lang in ('c', 'c++'):
+        for compiler in ('gcc', 'clang'):
+            k += 1
+            base = probe_case('make', compiler, lang, 'h1.h', 'inc')
+            hist = [{'op': 'break_header', 'h': '1'}, {'op': 'fix_header', 'h': '1', 'base': 11},
+                    {'op': 'noop'}, {'op': 'break_header', 'h': '2'},
+                    {'op': 'fix_header', 'h': '2', 'base': 13}, {'op': 'noop'},
+                    {'op': 'mod_header', 'h': '1', 'base': 17}, {'op': 'clean'}]
+            for backend in ('make', 'ninja'):
+                yield {'index': 1000 + k, 'backend': backend, 'compiler': compiler, 'jobs': 1,
+                       'directed': 'header-broken-then-repaired', 'state': base['state'],
+                       'history': hist}
     for i in range(n):
         rng = core.rng_for(seed, 'c07', i)
         lang = ('c', 'c++')[i % 2] if quick else rng.choice(['c', 'c++'])
@@ -1031,10 +1047,13 @@ def run_history(case, st, hist, res, count=True, keep_going=False):
             inner_edit = kind == 'mod_header' and op['h'] in g.only_through_pch(cur)
             stale_dep_gone = kind in ('del_header', 'rename_header', 'move_header')
             try:
-                if kind == 'break_tu':
-                    # this build has to fail (the TU does not compile); nothing else is asked
+                if kind in ('break_tu', 'break_header'):
+                    # this build has to fail (the TU / the header does not compile); nothing
+                    # else is asked
                     rc, out, recs = do_build()
                     ev('builds:expected-to-fail')
+                    if kind == 'break_header':
+                        ev('builds:expected-to-fail:header')
                     if rc == 0:
                         fail(idx, kind, 'broken-source-built', '', output=out[-800:])
                     cur, rendered = nxt, new_render
